@@ -1578,6 +1578,10 @@ M('C10', 'original defect: multi_coupling_term_handle_JW overrides an explicit o
   "        if op_string is None and not any(op_needs_JW):", "        if not any(op_needs_JW):",
   'PARAM-explicit-kept')
 
+M('C10', 'original defect: calc_H_MPO states the range of the coupling terms only', 'tenpy/models/model.py',
+  "        if not edt.is_empty:\n            H_MPO.max_range = edt.max_range()  # exponentially decaying terms have infinite range\n", "",
+  'RANGE-all-term-kinds')
+
 # ---------------------------------------------------------------- C16 / C19
 M('C16', 'GMRES restart: relative residual norm used for normalisation (round-3 seed b)', KRY,
   """        self.total_error.append([npc.norm(self.rs[-1]) / self.b_norm])
